@@ -1254,6 +1254,8 @@ func TestBxvBattery(t *testing.T) {
 	out := os.Getenv("BXV_OUT")
 	var fails []bxvFailure
 	n := 0
+	stats := map[string]int{}
+	var samples []string
 	run := func(cs []bxvCase, withRef bool) {
 		for _, c := range cs {
 			n++
@@ -1273,7 +1275,7 @@ func TestBxvBattery(t *testing.T) {
 	case "C08":
 		n += bxvHiddenCases(&fails)
 		run(bxvPathCases(), true)
-	case "C05", "C18", "C07":
+	case "C05", "C18":
 		run(bxvPathCases(), true)
 	case "C06":
 		run(bxvCollCases(), true)
@@ -1287,6 +1289,13 @@ func TestBxvBattery(t *testing.T) {
 		n += bxvParseCases(&fails)
 	case "C19":
 		n += bxvDumpCases(&fails)
+	case "C15":
+		n += bxvLangCases(&fails, stats, &samples)
+	case "C16":
+		n += bxvRoundTripCases(&fails, stats, &samples)
+	case "C07":
+		n += bxvSpellingCases(&fails, stats, &samples)
+		run(bxvPathCases(), true)
 	case "C11":
 		if bxvBudgetHook != nil {
 			n += bxvBudgetHook(&fails)
@@ -1305,7 +1314,7 @@ func TestBxvBattery(t *testing.T) {
 	if len(fails) > 40 {
 		fails = fails[:40]
 	}
-	res := map[string]interface{}{"property": prop, "cases": n, "failures": fails}
+	res := map[string]interface{}{"property": prop, "cases": n, "failures": fails, "stats": stats, "samples": samples}
 	b, _ := json.MarshalIndent(res, "", " ")
 	if out != "" {
 		_ = os.WriteFile(out, b, 0o644)
